@@ -294,7 +294,7 @@ int cmd_replay_legal(const Args& a)
     init_engine();
     std::ifstream in(a.s("in"));
     std::string line;
-    long n = 0, bad = 0, nontrivial = 0;
+    long n = 0, bad = 0, nontrivial = 0, napply = 0;
     FILE* out = fopen(a.s("out", "/dev/stdout").c_str(), "w");
     while (std::getline(in, line))
     {
@@ -322,8 +322,69 @@ int cmd_replay_legal(const Args& a)
                     fenbad ? "C16" : "C01", fenbad ? "fen_load_print" : (!missing.empty() ? "missing" : (!extra.empty() ? "extra" : "duplicate")),
                     jstr(fen).c_str(), missing.c_str(), extra.c_str(), jbool(dup).c_str(), jstr(p.fen()).c_str());
         }
+        // per-move expectations computed by the spec: [uci, fen after, capture, quiet, gives check]
+        std::string ap = jget(line, "apply");
+        if (!ap.empty())
+        {
+            size_t i = 1;
+            while (i < ap.size())
+            {
+                size_t b = ap.find('[', i);
+                if (b == std::string::npos) break;
+                size_t e = ap.find(']', b);
+                std::string item = ap.substr(b, e - b + 1);
+                i = e + 1;
+                std::vector<std::string> strs = jarr_str(item);
+                if (strs.size() < 2) continue;
+                size_t tail = item.rfind('"');
+                std::string flags = item.substr(tail + 1);
+                bool wcap = false, wquiet = false, wchk = false;
+                {
+                    std::vector<bool> fl;
+                    size_t q = 0;
+                    while (q < flags.size())
+                    {
+                        if (flags.compare(q, 4, "true") == 0) { fl.push_back(true); q += 4; }
+                        else if (flags.compare(q, 5, "false") == 0) { fl.push_back(false); q += 5; }
+                        else q++;
+                    }
+                    if (fl.size() == 3) { wcap = fl[0]; wquiet = fl[1]; wchk = fl[2]; }
+                }
+                Move m = NO_MOVE;
+                for (int k = 0; k < mv.n; ++k)
+                    if (p.uci(mv.list[k]) == strs[0]) m = mv.list[k];
+                if (m == NO_MOVE) continue;  // already reported as missing
+                napply++;
+                bool cap = p.move_is_capture(m), quiet = p.move_is_quiet(m), chk = p.move_gives_check(m);
+                if (cap != wcap || quiet != wquiet || chk != wchk)
+                {
+                    bad++;
+                    fprintf(out, "{\"prop\":\"C15\",\"kind\":\"classification\",\"fen\":%s,\"detail\":{\"m\":%s,\"castle\":%s,\"promo\":%d,\"engine\":[%s,%s,%s],\"spec\":[%s,%s,%s]}}\n",
+                            jstr(fen).c_str(), jstr(strs[0]).c_str(), jbool(castling(m) != NO_CASTLING).c_str(), (int)promotion(m),
+                            jbool(cap).c_str(), jbool(quiet).c_str(), jbool(chk).c_str(), jbool(wcap).c_str(), jbool(wquiet).c_str(), jbool(wchk).c_str());
+                }
+                std::string before = p.fen();
+                uint64_t k0 = p.hash(), pk0 = p.pawn_hash();
+                MoveInfo mi = p.do_move(m);
+                std::string after = p.fen();
+                if (after != strs[1])
+                {
+                    bad++;
+                    fprintf(out, "{\"prop\":\"C02\",\"kind\":\"fen\",\"fen\":%s,\"detail\":{\"m\":%s,\"castle\":%s,\"engine\":%s,\"spec\":%s}}\n",
+                            jstr(fen).c_str(), jstr(strs[0]).c_str(), jbool(castling(m) != NO_CASTLING).c_str(), jstr(after).c_str(), jstr(strs[1]).c_str());
+                }
+                p.undo_move(m, mi);
+                if (p.fen() != before || p.hash() != k0 || p.pawn_hash() != pk0)
+                {
+                    bad++;
+                    fprintf(out, "{\"prop\":\"C03\",\"kind\":\"not_restored\",\"fen\":%s,\"detail\":{\"m\":%s,\"after_undo\":%s}}\n",
+                            jstr(fen).c_str(), jstr(strs[0]).c_str(), jstr(p.fen()).c_str());
+                    p = Position(fen);
+                }
+            }
+        }
     }
-    fprintf(out, "{\"summary\":true,\"positions\":%ld,\"mismatches\":%ld,\"nontrivial\":%ld}\n", n, bad, nontrivial);
+    fprintf(out, "{\"summary\":true,\"positions\":%ld,\"mismatches\":%ld,\"nontrivial\":%ld,\"applied\":%ld}\n", n, bad, nontrivial, napply);
     fclose(out);
     return 0;
 }
